@@ -15,7 +15,9 @@ RULE = ("case = one generated cdef (about 14 declarations: typedef chains, neste
         "aggregates), constants and enumerators, list_types(), and functions/globals of the "
         "dlopen()ed library (type identity, address, value read, write visible on the other "
         "side); distinct = cdef text; non-trivial = cdef has an aggregate or typedef chain")
-ASSUMPTIONS = ["the gcc-built shared object defines every declared function and global"]
+ASSUMPTIONS = ["the gcc-built shared object defines every declared function and global",
+               "sanitizer reports in the decoding path are recorded as observations (the statement does not speak about them)"]
+SAN_DECIDES = False
 
 
 def make_ctx(seed):
@@ -68,10 +70,7 @@ def describe(ffi, t, depth=0):
         if t.fields is not None:
             for name, f in t.fields:
                 ft = f.type
-                if ft.kind in ('struct', 'union', 'enum'):
-                    fd = describe(ffi, ft, depth + 1) if depth < 4 else ft.cname
-                else:
-                    fd = ('id', id(ft))
+                fd = tdesc(ffi, ft, depth + 1)
                 fl.append((name, f.offset, f.bitshift, f.bitsize, f.flags, fd))
         d['fields'] = fl if t.fields is not None else None
     elif t.kind == 'enum':
@@ -82,14 +81,54 @@ def describe(ffi, t, depth=0):
     return d
 
 
+def tdesc(ffi, t, depth=0):
+    """comparable description of any ctype: identity for non-aggregate types
+    that do not involve an aggregate, structure otherwise"""
+    if t.kind in ('struct', 'union', 'enum'):
+        return describe(ffi, t, depth) if depth < 5 else {'kind': t.kind, 'cname': t.cname}
+    if not over_aggregate(t):
+        return ('id', id(t))
+    if t.kind in ('pointer', 'array'):
+        return (t.kind, getattr(t, 'length', None), tdesc(ffi, t.item, depth + 1))
+    if t.kind == 'function':
+        return ('function', [tdesc(ffi, a, depth + 1) for a in t.args],
+                tdesc(ffi, t.result, depth + 1), t.ellipsis, t.abi)
+    return ('other', t.kind, t.cname)
+
+
 def same_type(ffi1, t1, ffi2, t2):
-    if t1.kind in ('struct', 'union', 'enum') or t2.kind in ('struct', 'union', 'enum'):
-        return describe(ffi1, t1) == describe(ffi2, t2)
-    if t1 is t2:
-        return True
-    # non-aggregate types built over aggregates cannot be identical objects:
-    # compare structure
-    return t1.kind == t2.kind and t1.cname == t2.cname and over_aggregate(t1)
+    return tdesc(ffi1, t1) == tdesc(ffi2, t2)
+
+
+def strip_cnames(d):
+    if isinstance(d, dict):
+        return {k: strip_cnames(v) for k, v in d.items() if k != 'cname'}
+    if isinstance(d, (list, tuple)):
+        return [strip_cnames(x) for x in d]
+    return d
+
+
+def cname_only(ffi1, t1, ffi2, t2, c):
+    """classifier of the recorded finding: the two aggregates agree on everything
+    but the display name, and the in-line name is that of a typedef of it"""
+    if t1.kind != t2.kind:
+        return None
+    d1, d2 = tdesc(ffi1, t1), tdesc(ffi2, t2)
+    if strip_cnames(d1) == strip_cnames(d2):
+        tdnames = set(d['name'] for d in c.typedefs)
+        if has_typedef_cname(d1, tdnames):
+            return 'aggregate-cname-forced-by-typedef'
+    return None
+
+
+def has_typedef_cname(d, names):
+    if isinstance(d, dict):
+        if d.get('cname') in names:
+            return True
+        return any(has_typedef_cname(v, names) for v in d.values())
+    if isinstance(d, (list, tuple)):
+        return any(has_typedef_cname(x, names) for x in d)
+    return False
 
 
 def over_aggregate(t):
@@ -132,6 +171,11 @@ def child_case(st, case):
 
         def bad(mech, msg):
             rep.bad(mech, msg + ' :: cdef seed %d' % seed, seed)
+        try:
+            clib1, clib2 = ffi1.dlopen(case['so']), ffi2.dlopen(case['so'])
+        except Exception as e:
+            bad('dlopen-raised', str(e))
+            continue
         for d in c.items:
             k = d['kind']
             try:
@@ -139,7 +183,8 @@ def child_case(st, case):
                     rep.stat('typedefs')
                     t1, t2 = ffi1.typeof(d['name']), ffi2.typeof(d['name'])
                     if not same_type(ffi1, t1, ffi2, t2):
-                        bad('typedef-differs', 'typedef %s: in-line %r, out-of-line %r (%s)' %
+                        bad(cname_only(ffi1, t1, ffi2, t2, c) or 'typedef-differs',
+                            'typedef %s: in-line %r, out-of-line %r (%s)' %
                             (d['name'], t1, t2, d['text']))
                     elif t1 is t2:
                         rep.stat('typedefs_identical_object')
@@ -148,7 +193,8 @@ def child_case(st, case):
                     tag = '%s %s' % (d['agg']['kind'], d['name'])
                     d1, d2 = describe(ffi1, ffi1.typeof(tag)), describe(ffi2, ffi2.typeof(tag))
                     if d1 != d2:
-                        bad('aggregate-differs', '%s: in-line %r, out-of-line %r (%s)' %
+                        bad(cname_only(ffi1, ffi1.typeof(tag), ffi2, ffi2.typeof(tag), c) or
+                            'aggregate-differs', '%s: in-line %r, out-of-line %r (%s)' %
                             (tag, d1, d2, d['text'][:300]))
                 elif k == 'enum':
                     rep.stat('enums')
@@ -157,13 +203,16 @@ def child_case(st, case):
                     if d1 != d2:
                         bad('enum-differs', '%s: in-line %r, out-of-line %r' % (tag, d1, d2))
                     for en, v in d['values']:
-                        v1, v2 = ffi1.integer_const(en), ffi2.integer_const(en)
+                        v1, v2 = getattr(clib1, en), ffi2.integer_const(en)
                         if v1 != v2 or v1 != v:
                             bad('enumerator-value', '%s: in-line %r, out-of-line %r, declared %r'
                                 % (en, v1, v2, v))
                 elif k == 'const':
                     rep.stat('constants')
-                    v1, v2 = ffi1.integer_const(d['name']), ffi2.integer_const(d['name'])
+                    v1, v2 = getattr(clib1, d['name']), ffi2.integer_const(d['name'])
+                    if getattr(clib2, d['name']) != v2:
+                        bad('constant-value', '%s: lib attribute and integer_const differ' %
+                            d['name'])
                     if v1 != v2 or v1 != d['value']:
                         bad('constant-value', '%s: in-line %r, out-of-line %r, declared %r (%s)' %
                             (d['name'], v1, v2, d['value'], d['text']))
@@ -204,9 +253,13 @@ def child_case(st, case):
                 elif d['kind'] == 'glob':
                     rep.stat('globals')
                     p1, p2 = ffi1.addressof(lib1, d['name']), ffi2.addressof(lib2, d['name'])
-                    if not same_type(ffi1, ffi1.typeof(p1), ffi2, ffi2.typeof(p2)):
-                        bad('global-type-differs', '%s: %r vs %r' %
-                            (d['name'], ffi1.typeof(p1), ffi2.typeof(p2)))
+                    g1, g2 = getattr(lib1, d['name']), getattr(lib2, d['name'])
+                    if isinstance(g1, ffi1.CData) != isinstance(g2, ffi2.CData) or (
+                            isinstance(g1, ffi1.CData) and not same_type(
+                                ffi1, ffi1.typeof(g1), ffi2, ffi2.typeof(g2))):
+                        bad((cname_only(ffi1, ffi1.typeof(g1), ffi2, ffi2.typeof(g2), c)
+                             if isinstance(g1, ffi1.CData) and isinstance(g2, ffi2.CData) else
+                             None) or 'global-type-differs', '%s: %r vs %r' % (d['name'], g1, g2))
                     if int(ffi1.cast('uintptr_t', p1)) != int(ffi2.cast('uintptr_t', p2)):
                         bad('global-address-differs', d['name'])
                     r = c.resolve(d['type'])
